@@ -39,6 +39,7 @@ type faultBackend struct {
 	forceFail      int // fail the next n calls (consecutive failures)
 	SleptMs        int64
 	suppress       bool
+	consumed       map[string]int // hand states that a successful step has already been applied to
 }
 
 func newFaultBackend(w *tableWorld) *faultBackend {
@@ -72,9 +73,11 @@ func (b *faultBackend) do(kind string, in *pokerface.GameState, f func() (*poker
 	call := &beCall{ord: b.ord, kind: kind, atMs: c.NowMs(), engine: engineKinds[kind]}
 	b.calls = append(b.calls, call)
 	stale := false
+	inNorm := ""
 	if kind != "CreateGame" {
 		c.Judged("C13.chain_link")
-		stale = normState(in) != b.lastOK
+		inNorm = normState(in)
+		stale = inNorm != b.lastOK
 	}
 	fail := false
 	if b.forceFail > 0 {
@@ -114,10 +117,21 @@ func (b *faultBackend) do(kind string, in *pokerface.GameState, f func() (*poker
 		c.Logf("BACKEND #%d %s -> %s %v (task %s)", b.ord, kind, ev, err, simrt.CurName())
 	}
 	if err == nil {
+		if inNorm != "" {
+			if b.consumed == nil {
+				b.consumed = map[string]int{}
+			}
+			if prev, dup := b.consumed[inNorm]; dup {
+				stale = true
+				_ = prev
+			}
+			b.consumed[inNorm] = b.ord
+		}
 		if stale {
 			// a step was applied to a state that is not the latest successfully produced one: the
 			// hand forks and one of the branches will be lost
 			c.Viol("C13", "C13.chain_broken", map[string]any{"kind": kind, "after": b.lastKind}, "backend call #%d %s succeeded on a state that is not the one returned by the last successful call (%s)", b.ord, kind, b.lastKind)
+			c.Viol("C16", "C16.concurrent_actions_forked_hand", map[string]any{"kind": kind}, "two game actions submitted at the same time were both applied to the same hand state (backend call #%d %s after %s): one of them is lost", b.ord, kind, b.lastKind)
 		}
 		b.lastOK = normState(out)
 		b.lastKind = kind
@@ -128,6 +142,7 @@ func (b *faultBackend) do(kind string, in *pokerface.GameState, f func() (*poker
 }
 
 func (b *faultBackend) CreateGame(opts *pokerface.GameOptions) (*pokerface.GameState, error) {
+	b.consumed = nil
 	return b.do("CreateGame", nil, func() (*pokerface.GameState, error) { return b.real.CreateGame(opts) })
 }
 func (b *faultBackend) ReadyForAll(gs *pokerface.GameState) (*pokerface.GameState, error) {
